@@ -41,6 +41,8 @@ pub trait Runtime: Sync {
     fn on_alloc(&self, addr: usize, bytes: usize, ty: &'static str);
     /// Returns true when the block must be kept (quarantined) instead of freed
     fn on_dealloc(&self, addr: usize, bytes: usize, align: usize) -> bool;
+    /// A block was handed to the memory manager for deferred release
+    fn on_retire(&self, _addr: usize) {}
 }
 
 thread_local! {
@@ -60,6 +62,12 @@ fn rt() -> Option<&'static dyn Runtime> {
 pub fn on_alloc(addr: usize, bytes: usize, ty: &'static str) {
     if let Some(r) = rt() {
         r.on_alloc(addr, bytes, ty);
+    }
+}
+
+pub fn on_retire(addr: usize) {
+    if let Some(r) = rt() {
+        r.on_retire(addr);
     }
 }
 
